@@ -70,16 +70,20 @@ class VersionUnion(VersionConstraint):
 
         merged: list[VersionRangeConstraint] = []
         for constraint in flattened:
-            # Merge this constraint with the previous one, but only if they touch.
-            if not merged or (
-                not merged[-1].allows_any(constraint)
-                and not merged[-1].is_adjacent_to(constraint)
-            ):
-                merged.append(constraint)
+            # Merge this constraint with a previous one, but only if they touch.
+            # Usually that is the last one, but an exclusive lower bound does not
+            # allow post-releases and local versions of itself (PEP 440), so such
+            # versions may sit between a range and the constraints it overlaps.
+            for i in range(len(merged) - 1, -1, -1):
+                if merged[i].allows_any(constraint) or merged[i].is_adjacent_to(
+                    constraint
+                ):
+                    new_constraint = merged[i].union(constraint)
+                    assert isinstance(new_constraint, VersionRangeConstraint)
+                    merged[i] = new_constraint
+                    break
             else:
-                new_constraint = merged[-1].union(constraint)
-                assert isinstance(new_constraint, VersionRangeConstraint)
-                merged[-1] = new_constraint
+                merged.append(constraint)
 
         if len(merged) == 1:
             return merged[0]
